@@ -1189,6 +1189,36 @@ def gen_triples_extra(tier):
     return gen
 
 
+# -- every whole-pixel shift up to +-300 px on grids whose pixel coordinates are large numbers ------------------------
+SWEEP_BASES = ("R-cm-utm", "R-tiny", "R-1e7", "R-offwhole", "R-huge", "R-rot45")
+
+
+def gen_sweep(tier):
+    span = 1000 if tier == "thorough" else 300
+
+    def gen():
+        for base in SWEEP_BASES:
+            for k in range(-span, span + 1):
+                yield (base, (k, 0))
+                yield (base, (0, k))
+
+    return gen
+
+
+def run_sweep(case):
+    base, (kx, ky) = case
+    ma, mb = (0, 0, 3, 4), (kx, ky, 2, 5)
+    a, b = gb(base, ma), GeoBox((2, 5), member_affine(base, kx, ky), crs_of(base))
+    ra, rb = rect(ma), rect(mb)
+    r = R(outcome=f"{base}:{rel_of(ra, rb)}", nontrivial=(kx, ky) != (0, 0))
+    what = show(base, ma, mb)
+    tag = "sweep"
+    judge_union(r, base, call(lambda: a | b), [ra, rb], tag, f"a|b {what}")
+    judge_inter(r, base, call(lambda: b & a), [rb, ra], tag, f"b&a {what}")
+    judge_roi(r, base, a, b, ma, mb, "a")
+    return r
+
+
 # -- both edges of the alignment tolerance --------------------------------------------------------------
 EDGE_F = (0.9, 0.999, 1.001, 1.1, 10.0)
 EDGE_AX = (0.0,) + tuple(s * f for f in EDGE_F for s in (1.0, -1.0))  # residue on one axis, in units of the tolerance
@@ -1405,7 +1435,7 @@ N4 = ((0, 0, 2, 3), (1, 1, 2, 2), (5, -6, 2, 2), (1, 1, 0, 2), (-2, -1, 4, 6), (
 
 
 def gen_nary4(tier):
-    bases = BASE_NAMES + (EXTRA_NAMES if tier == "thorough" else ("D-flipx", "D-sheared"))
+    bases = BASE_NAMES + EXTRA_NAMES if tier == "thorough" else ("D-northup", "D-rot45", "R-mirrored", "D-sheared")
 
     def gen():
         for base in bases:
@@ -1835,7 +1865,7 @@ BBM_ENC = ("float", "np.float64", "np.int64", "np.float32", "neg-zero", "np.int8
 BBM_TUPLE = ("tuple", "list", "ndarray")
 
 
-def gen_bbox_more():
+def gen_bbox_more(tier="quick"):
     n = len(BBM_BOXES)
     for i in range(n):
         for j in range(n):
@@ -1850,6 +1880,9 @@ def gen_bbox_more():
                 yield ("number-types", i, j, e)
             for e in range(len(BBM_TUPLE)):
                 yield ("tuple-operand", i, j, e)
+
+
+_BBM_TIER = ["quick"]
 
 
 def _set_empty(t):
@@ -1894,12 +1927,13 @@ def run_bbox_more(case):
         if common == _set_empty(tuple(n)):
             r.fail(f"bbox-intersection:emptiness-wrong:{cls}", f"{what}: a&b={tuple(n)}, operands {'share' if common else 'share no'} points")
         bad = None
-        for tc in BBM_BOXES:
+        third = BBM_BOXES if _BBM_TIER[0] == "thorough" else BBM_BOXES[(i + j) % 3::3]  # quick: every third box, rotating
+        for tc in third:
             c = BoundingBox(*tc)
             if ((u | c) != (a | (b | c)) or (n & c) != (a & (b & c)) or bbox_union([a, b, c]) != (u | c)
                     or bbox_intersection(iter([a, b, c])) != (n & c)) and bad is None:
                 bad = tc
-        r.counts = dict(bbox_triples=len(BBM_BOXES))
+        r.counts = dict(bbox_triples=len(third))
         if bad is not None:
             r.fail(f"bbox:not-associative-or-nary-differs:{cls}", f"{what} c={bad}")
         return r
@@ -1963,6 +1997,7 @@ def run_bbox_more(case):
 
 # ---------------------------------------------------------------------------------------------
 def slices(tier):
+    _BBM_TIER[0] = tier
     nm = len(triple_members(tier))
     return [
         e1.Slice("pairs", gen_pairs(tier), run_pair,
@@ -1995,6 +2030,9 @@ def slices(tier):
                  "landscape (2x7) and portrait (7x2) first operands, second operand in both aspects, offsets 3/5/8 on each axis "
                  "and sign (larger than the shorter / the longer side)"),
         e1.Slice("triples-extra", gen_triples_extra(tier), run_triple, "ordered triples on the 10 further bases"),
+        e1.Slice("shift-sweep", gen_sweep(tier), run_sweep,
+                 "every whole-pixel shift -300..300 (thorough: -1000..1000) along x and along y on grids whose pixel coordinates are "
+                 "large numbers (1 cm UTM, 4.5e-6 deg, origins near 1e7, huge pixels, rotated 45): | & overlap_roi must work"),
         e1.Slice("tol-edges", gen_tol_edges, run_tol_edges,
                  "sub-pixel offsets of f x tol, f in {0.9,0.999,1.001,1.1,10}, per axis and together, both signs; tol = default, "
                  "explicit 1e-8, 1e-3, 1e-10 and explicit 0, for | & overlap_roi n-ary forms bounding_box_in_pixel_domain snap_to"),
